@@ -30,7 +30,7 @@ META = {
             "pest_vm before vs after every real pass on all short inputs, Spec before vs after, VM vs Spec on the unroll/restore streams. NOT theorems: "
             "that `optimize` returns normally on every valid grammar (proved for rotate/factor/unroll with reader-accepted counts only), and the link "
             "exec . vm_expr = Spec (that is C01); the restorer clause is therefore stated operationally."
-            " After a broken proof obligation or structural correspondence with no input found, an escalated search (real VM before vs after each real pass, no model of a pass involved) runs on the differing grammars, entry rule of the type it has, with inputs derived from their literals (case variants, prefixes, concatenations), on the same grammars with WHITESPACE / COMMENT switched on, on mutated variants of them and on more generated rule sets."
+            " After a broken proof obligation or structural correspondence with no input found, an escalated search (real VM before vs after each real pass, no model of a pass involved) runs on the differing grammars, entry rule of the type it has, with inputs derived from their literals (case variants, prefixes, concatenations), on the same grammars with WHITESPACE / COMMENT switched on, on mutated variants of them (literal / operand changes, a sub-expression replaced by a built-in, rule types, entry rule wrapped) and on more generated rule sets."
             " The known class is decided by the Coq predicates alone, never by what the real list pass does: a before/after difference of the list pass (or of the pipeline) counts as the known finding only when the rewrite of coq/Opt/List.v fires on the rules the pass was given (lister_applies / lister_class, extracted, evaluated by the runner on every such difference) and, when the real pass did anything else than that rewrite, only on inputs on which the known rewrite alone changes the result as well."
             " A normal or silent entry rule (no atomicity of its own) is run from a non-atomic and from a compound-atomic caller, a silent one inside a normal caller whose pair carries its span; the Spec before/after comparison includes the end of the match.",
     "note": "Trusted: Coq kernel; extraction (ExtrOcamlBasic only); harness/runner/driver; HashMap<String,_> modelled as last-binding-wins "
@@ -351,7 +351,12 @@ def run(tier, seed, replay=None):
                 "upper / lower forms, its proper prefixes and characters, one member of each named character class); Spec before/after on inputs <= %d (plus the "
                 "upper-case letters, one shorter, when the grammar has case-insensitive literals); VM vs Spec on the unroll/restore "
                 "streams. Concatenate shapes mix case-sensitive and case-insensitive literals; factor shapes include alternatives whose heads (or tails) "
-                "match prefixes of each other before a shared tail (after a shared head). `escalated_search` says what the search after a broken "
+                "match prefixes of each other before a shared tail (after a shared head). Built-ins (NEWLINE, the ASCII_* classes, ANY / SOI / EOI, the stack "
+                "built-ins) stand in the positions a pass inspects or resolves: in skip-until stop sets directly, inside a choice and behind a helper rule of any "
+                "type (`r2 = NEWLINE`, `r2 = \"x\" | NEWLINE`), as operands of rotated sequences / choices, between concatenated literals, as shared heads of "
+                "factored choices, as element / separator of the lister shape, under bounded repetitions; a rule set that names built-ins is also run on all "
+                "short strings (budget 450 per rule set) over two letters and \\n, \\r, \\r\\n resp. the first / last member of each named ASCII class and the "
+                "characters just outside it. `escalated_search` says what the search after a broken "
                 "proof / correspondence covered when it ran. One evaluation = one (pass, AST) comparison or one (rule set, input) parse. non-trivial = distinct (pass, AST) on which the rewrite fired" % (maxlen, speclen),
         "exhaustive": False,
         "samples": ["x=0 pass=4 g=(r0 a (cho (seq (str 78) (str 79)) (str 78)))", "x=1 pass=7 g=(r0 n (opt (tag t (id r1))));(r1 n (id POP))"],
@@ -367,7 +372,8 @@ def run(tier, seed, replay=None):
         "entry_contexts": "non-silent r0: from the top level; normal and silent r0 also from `${ r0 }`; silent r0 inside `{ r0 }` (span of the match)",
     })
     res.assumptions = ["inputs of the semantic runs: all strings up to the length bound over {x, y, space|z, e-acute}, short strings with their upper-case forms, and "
-                       "a bounded sample of concatenations of the grammar's literals, their case variants and prefixes; the theorems are for arbitrary inputs",
+                       "a bounded sample of concatenations of the grammar's literals, their case variants and prefixes, for rule sets naming built-ins the line "
+                       "break forms and the boundary characters of the named ASCII classes; the theorems are for arbitrary inputs",
                        "real-VM runs use a call limit of 3000 with an explicit probe so that a parse that ran into the limit is never taken for a result",
                        "rule sets of the semantic runs only call higher-numbered rules (no recursion); the structural runs include cyclic references"]
     return res.finish()
